@@ -711,9 +711,9 @@ def build_cases(ctx):
     for name, src in chosen:
         for p in line_prefixes(src):
             add("lineprefix", p)
-        for p in char_prefixes(rng, src, 8 if quick else 25):
+        for p in char_prefixes(rng, src, 8 if quick else 15):
             add("charprefix", p)
-    nt, nc, nr, ng = (1800, 900, 400, 250) if quick else (36000, 16000, 7000, 6000)
+    nt, nc, nr, ng = (1300, 650, 300, 180) if quick else (16000, 7000, 3000, 2500)
     nt, nc, nr, ng = [max(1, int(x * SCALE)) for x in (nt, nc, nr, ng)]
     for _ in range(nt):
         add("tokmut", token_mutant(rng, rng.choice(files)[1]))
@@ -772,6 +772,7 @@ def run(ctx):
         check_texts(ctx, lim, st, "limits", debug_subset=list(range(len(lim))))
     if len(st["viol"]) < 5:
         check_texts(ctx, cs, st, "codesize", model_applies=False)
+    st["kw"] = keyword_probes(ctx, st) if len(st["viol"]) < 5 else 0
     log("[C03] ladders, limits, code-size inputs judged at %.0fs" % (time.time() - t0))
     # accepted texts must be runnable: no panic of the interpreter (a run that does not finish in time is not judged)
     acc = sorted(s for s in st["accepted"] if s not in corpus_texts and len(s) < 5000)
@@ -829,7 +830,7 @@ def finish(ctx, st, uniq, lad, lim, cs, dist, corpus_texts, nrun, run_timeouts, 
     if st["fuel"]:
         ctx.notes.append("POutOfFuel verdicts: %d (the model has no opinion on these texts), e.g. %r" % (st["fuel"], st["fuel_samples"][:2]))
     novel = [s for s in st["accepted"] if s not in corpus_texts]
-    total = len(uniq) + len(lad) + len(lim) + len(cs)
+    total = len(uniq) + len(lad) + len(lim) + len(cs) + st.get("kw", 0)
     # comments of the RULES array vs the kind names (information only: a comment is not code)
     try:
         with open(os.path.join(yvlib.COQ, "gen", "manifest.json")) as fh:
@@ -850,7 +851,7 @@ def finish(ctx, st, uniq, lad, lim, cs, dist, corpus_texts, nrun, run_timeouts, 
         "distinct_accepted_noncorpus": len(novel),
         "agree_ok": st["agree_ok"], "agree_err": st["agree_err"], "err_with_recovery_messages": st["recovered"],
         "out_of_fuel": st["fuel"], "not_judged_after_many_failures": st["skipped"], "code_size_dependent": st["codesize"], "attr_order_nondeterministic": st["attr_nondet"],
-        "texts_by_family": dist, "ladders": len(lad), "limits": len(lim), "code_size_inputs": len(cs),
+        "texts_by_family": dist, "keyword_probes": st.get("kw", 0), "ladders": len(lad), "limits": len(lim), "code_size_inputs": len(cs),
         "debug_build_texts": ndebug, "run_sample": nrun, "run_timeouts_not_judged": run_timeouts,
         "operator_shapes": nshapes, "operator_shapes_discriminated": discr, "operator_programs": nprogs,
         "traces_validated_against_impl": st["agree_ok"] + st["agree_err"],
@@ -858,16 +859,42 @@ def finish(ctx, st, uniq, lad, lim, cs, dist, corpus_texts, nrun, run_timeouts, 
     })
 
 
+MODEL_KEYWORDS = ["as", "break", "catch", "class", "continue", "else", "false", "finally", "for", "fn", "if", "in", "import", "nil",
+                  "return", "Self", "self", "super", "throw", "true", "try", "var", "while"]
+
+
+def keyword_probes(ctx, st):  # noqa: E302
+    """`var <word> = 1;` for every keyword of the current source and of the model: a word that is a keyword for one and an
+    identifier for the other gives a concrete program on which compiler and language definition differ"""
+    words = list(MODEL_KEYWORDS)
+    try:
+        with open(os.path.join(yvlib.COQ, "gen", "manifest.json")) as fh:
+            for k in json.load(fh).get("c03_keywords", []):
+                p, _, r, _ = k.split("|")
+                if "?" not in p and "_" not in p and p + r not in words:
+                    words.append(p + r)
+    except Exception as e:
+        ctx.notes.append("manifest not readable: %s" % e)
+    cases = [("kwprobe", "var %s = 1;" % w) for w in words] + [("kwprobe", "%s;" % w) for w in words]
+    check_texts(ctx, cases, st, "kw")
+    return len(cases)
+
+
 def search(ctx):
     """obligations / correspondences broken: look for a program whose parse by the real compiler differs from the
-    language as defined (rules_ref): all operator pairs with every value set, then the thorough generators"""
+    language as defined (rules_ref, keyword table): keyword probes, all operator pairs with every value set, then the
+    thorough generators"""
     st = new_stats()
+    nk = keyword_probes(ctx, st)
     nshapes, discr, nprogs = operator_pairs(ctx, st, VALUE_SETS)
     for v in st["viol"][:5]:
         v.pop("cls", None)
         ctx.violation(**v)
-    ctx.notes.append("search: %d operator shapes, %d discriminated, %d programs" % (nshapes, discr, nprogs))
-    if ctx.violations or not ctx.quick():
+    for c in st["corr"][:5]:
+        if c not in ctx.corr_broken:
+            ctx.corr_broken.append(c)
+    ctx.notes.append("search: %d keyword probes, %d operator shapes, %d discriminated, %d programs" % (nk, nshapes, discr, nprogs))
+    if ctx.violations or st["corr"] or not ctx.quick():
         return
     old = ctx.tier
     ctx.tier = "thorough"
